@@ -12,13 +12,24 @@
 (*               the dirty set of the table and copy the CURRENT image of  *)
 (*               every drained page into t's payload (nothing drained =>   *)
 (*               empty payload)                                            *)
-(*   Write(t)    COMMIT, second half, after the lock was released: an      *)
-(*               empty payload returns at once; otherwise the payload is   *)
-(*               appended to the log (and synced)                          *)
+(*   COMMIT, second half, after the lock was released, goes through the    *)
+(*   group-commit queue (one action per critical section of its mutex):    *)
+(*   Submit(t)   an empty payload returns at once; otherwise the payload   *)
+(*               is appended to the queue of pending commits               *)
+(*   Elect(t)    a waiter finds no flush in progress: it becomes the flush *)
+(*               leader and takes EVERY pending commit as its batch        *)
+(*   Flush(t)    the leader appends the payloads of its batch to the log   *)
+(*               in queue order (and syncs), marks every commit of the     *)
+(*               batch completed and returns                               *)
+(*   Return(t)   a waiter finds its commit completed and returns           *)
+(*   (a waiter whose commit is in a batch that is being flushed sleeps on  *)
+(*   a condition variable: it has no step)                                 *)
 (*                                                                         *)
-(* Capture and Write are separate steps - the code releases the lock in    *)
+(* Capture and Submit are separate steps - the code releases the lock in   *)
 (* between (hook point commit.captured) - and that is where the anomalies  *)
-(* live. `done[t]` = COMMIT returned OK.                                   *)
+(* live. `done[t]` = COMMIT returned OK. A batch may hold several images   *)
+(* of the page (captured at different times): all of them are logged, in   *)
+(* the order of submission.                                                *)
 (*                                                                         *)
 (*   Covered   when a COMMIT has returned, the log holds an image of the   *)
 (*             page at least as new as the committer's last modification   *)
@@ -37,40 +48,58 @@ CONSTANTS Threads, MaxMods
 
 VARIABLES ver,        \* current version of the page image in the mapping
           dirty,      \* the page is marked in the shared dirty tracker
-          pc,         \* [Threads -> "idle" | "txn" | "captured" | "done"]
+          pc,         \* [Threads -> "idle" | "txn" | "captured" | "queued" | "leader" | "done"]
           mine,       \* [Threads -> version written by t's last modification (0 = none)]
           payload,    \* [Threads -> version captured, 0 = empty payload]
+          queue,      \* pending commits: sequence of [t, v]
+          batch,      \* the commits the current flush leader took (<<>> = no flush in progress)
           log,        \* sequence of versions appended to the WAL
           overlap,    \* ghost: some COMMIT ran while another handle was between its first Modify and its Write
           hist
-vars == <<ver, dirty, pc, mine, payload, log, overlap, hist>>
-view == <<ver, dirty, pc, mine, payload, log, overlap>>
+vars == <<ver, dirty, pc, mine, payload, queue, batch, log, overlap, hist>>
+view == <<ver, dirty, pc, mine, payload, queue, batch, log, overlap>>
 
 Init == /\ ver = 0 /\ dirty = FALSE /\ pc = [t \in Threads |-> "idle"] /\ mine = [t \in Threads |-> 0]
-        /\ payload = [t \in Threads |-> 0] /\ log = <<>> /\ overlap = FALSE /\ hist = <<>>
+        /\ payload = [t \in Threads |-> 0] /\ queue = <<>> /\ batch = <<>> /\ log = <<>> /\ overlap = FALSE /\ hist = <<>>
 
 Others(t) == Threads \ {t}
-Step(t, a) == hist' = Append(hist, [t |-> t, a |-> a])
+InCommit == {"captured", "queued", "leader"}
+StepN(t, a, n) == hist' = Append(hist, [t |-> t, a |-> a, n |-> n])      \* n: size of the batch an Elect step takes
+Step(t, a) == StepN(t, a, 0)
 
 Modify(t) == /\ pc[t] \in {"idle", "txn"} /\ ver < MaxMods
              /\ ver' = ver + 1 /\ dirty' = TRUE
              /\ pc' = [pc EXCEPT ![t] = "txn"] /\ mine' = [mine EXCEPT ![t] = ver + 1]
-             /\ overlap' = (overlap \/ \E u \in Others(t) : pc[u] = "captured")
-             /\ UNCHANGED <<payload, log>> /\ Step(t, "modify")
+             /\ overlap' = (overlap \/ \E u \in Others(t) : pc[u] \in InCommit)
+             /\ UNCHANGED <<payload, queue, batch, log>> /\ Step(t, "modify")
 
 Capture(t) == /\ pc[t] = "txn"
               /\ payload' = [payload EXCEPT ![t] = IF dirty THEN ver ELSE 0]
               /\ dirty' = FALSE
               /\ pc' = [pc EXCEPT ![t] = "captured"]
-              /\ overlap' = (overlap \/ \E u \in Others(t) : pc[u] \in {"txn", "captured"})
-              /\ UNCHANGED <<ver, mine, log>> /\ Step(t, "capture")
+              /\ overlap' = (overlap \/ \E u \in Others(t) : pc[u] \in {"txn"} \cup InCommit)
+              /\ UNCHANGED <<ver, mine, queue, batch, log>> /\ Step(t, "capture")
 
-Write(t) == /\ pc[t] = "captured"
-            /\ log' = IF payload[t] = 0 THEN log ELSE Append(log, payload[t])
+InQueue(t) == \E i \in 1..Len(queue) : queue[i].t = t
+InBatch(t) == \E i \in 1..Len(batch) : batch[i].t = t
+Submit(t) == /\ pc[t] = "captured"
+             /\ IF payload[t] = 0 THEN pc' = [pc EXCEPT ![t] = "done"] /\ UNCHANGED queue
+                ELSE pc' = [pc EXCEPT ![t] = "queued"] /\ queue' = Append(queue, [t |-> t, v |-> payload[t]])
+             /\ UNCHANGED <<ver, dirty, mine, payload, batch, log, overlap>> /\ Step(t, "submit")
+Elect(t) == /\ pc[t] = "queued" /\ InQueue(t) /\ batch = <<>>
+            /\ batch' = queue /\ queue' = <<>>
+            /\ pc' = [pc EXCEPT ![t] = "leader"]
+            /\ UNCHANGED <<ver, dirty, mine, payload, log, overlap>> /\ StepN(t, "elect", Len(queue))
+Flush(t) == /\ pc[t] = "leader"
+            /\ log' = log \o [i \in 1..Len(batch) |-> batch[i].v]
+            /\ batch' = <<>>
             /\ pc' = [pc EXCEPT ![t] = "done"]
-            /\ UNCHANGED <<ver, dirty, mine, payload, overlap>> /\ Step(t, "write")
+            /\ UNCHANGED <<ver, dirty, mine, payload, queue, overlap>> /\ Step(t, "flush")
+Return(t) == /\ pc[t] = "queued" /\ ~InQueue(t) /\ ~InBatch(t)
+             /\ pc' = [pc EXCEPT ![t] = "done"]
+             /\ UNCHANGED <<ver, dirty, mine, payload, queue, batch, log, overlap>> /\ Step(t, "return")
 
-Next == \E t \in Threads : Modify(t) \/ Capture(t) \/ Write(t)
+Next == \E t \in Threads : Modify(t) \/ Capture(t) \/ Submit(t) \/ Elect(t) \/ Flush(t) \/ Return(t)
 Spec == Init /\ [][Next]_vars
 
 MaxLogged == IF log = <<>> THEN 0 ELSE log[Len(log)]       \* what redo leaves on the page
@@ -78,6 +107,12 @@ Covered == \A t \in Threads : pc[t] = "done" => (\E i \in 1..Len(log) : log[i] >
 LogOrder == \A i, j \in 1..Len(log) : i < j => log[i] <= log[j]
 \* what C38 demands of the recovered page: the image of its most recent committed version
 ReplayGivesNewestCommitted == \A t \in Threads : pc[t] = "done" => MaxLogged >= mine[t]
+
+\* the queue itself: every submitted image is logged exactly once, in the order of submission; a commit returns only after
+\* its image is in the log
+Returned(t) == pc[t] = "done" /\ payload[t] # 0
+AckAfterLogged == \A t \in Threads : Returned(t) => \E i \in 1..Len(log) : log[i] = payload[t]
+BatchLogged == Len(log) + Len(batch) + Len(queue) = Cardinality({t \in Threads : pc[t] \in {"queued", "leader", "done"} /\ payload[t] # 0})
 
 SerialCovered == ~overlap => Covered
 SerialLogOrder == ~overlap => LogOrder
